@@ -115,7 +115,7 @@ def _ser(tokens):
 
 class RuleInfo:
     __slots__ = ("selector", "path", "depth", "color_decls", "bg_decls", "color_value", "bg_value",
-                 "eff_text", "eff_bg", "var_refs", "is_root", "node", "decl_names")
+                 "eff_text", "eff_bg", "var_refs", "text_refs", "bg_refs", "is_root", "node", "decl_names")
 
     def as_dict(self):
         return {k: getattr(self, k) for k in self.__slots__ if k not in ("node",)}
@@ -210,10 +210,11 @@ def analyse(css_text, default_bg="white"):
                 cw, bw = _winner(cds), _winner(bds)
                 ri.color_value = _ser(cw.value) if cw else None
                 ri.bg_value = _ser(bw.value) if bw else None
-                refs = []
-                ri.eff_text = resolve(ri.color_value, props, (), refs) if cw else None
-                ri.eff_bg = resolve(ri.bg_value, props, (), refs) if bw else default_bg
-                ri.var_refs = refs
+                trefs, brefs = [], []
+                ri.eff_text = resolve(ri.color_value, props, (), trefs) if cw else None
+                ri.eff_bg = resolve(ri.bg_value, props, (), brefs) if bw else default_bg
+                ri.text_refs, ri.bg_refs = trefs, brefs
+                ri.var_refs = trefs + brefs
                 ri.is_root = ri.selector in (":root", "html") and depth == 0
                 infos.append(ri)
             elif isinstance(n, A.AtRule) and n.lower_at_keyword in ("media", "supports") and n.content is not None:
@@ -285,11 +286,19 @@ def _tok_nf(tokens):
     return out
 
 
-def _decl_list_nf(content):
+MASKED = ("MASKED",)
+
+
+def _decl_list_nf(content, mask=None, selector=None):
     out = []
+    mask_color = mask is not None and selector in mask.get("rules", ())
+    mask_props = mask.get("props", ()) if (mask is not None and selector in (":root", "html")) else ()
     for d in tinycss2.parse_declaration_list(content, skip_whitespace=True, skip_comments=False):
         if isinstance(d, A.Declaration):
-            out.append(("decl", d.name, tuple(_tok_nf(d.value)), bool(d.important)))
+            if (mask_color and d.lower_name == "color") or d.name in mask_props:
+                out.append(("decl", d.name, MASKED, bool(d.important)))
+            else:
+                out.append(("decl", d.name, tuple(_tok_nf(d.value)), bool(d.important)))
         elif isinstance(d, A.Comment):
             out.append(("comment", d.value))
         elif isinstance(d, A.AtRule):
@@ -302,7 +311,7 @@ def _decl_list_nf(content):
     return out
 
 
-def _rule_list_nf(nodes):
+def _rule_list_nf(nodes, mask=None):
     out = []
     for n in nodes:
         if isinstance(n, A.WhitespaceToken):
@@ -310,13 +319,14 @@ def _rule_list_nf(nodes):
         if isinstance(n, A.Comment):
             out.append(("comment", n.value))
         elif isinstance(n, A.QualifiedRule):
-            out.append(("rule", tuple(_tok_nf(n.prelude)), tuple(_decl_list_nf(n.content))))
+            sel = _ser(n.prelude).lstrip("\ufeff")
+            out.append(("rule", tuple(_tok_nf(n.prelude)), tuple(_decl_list_nf(n.content, mask, sel))))
         elif isinstance(n, A.AtRule):
             if n.content is None:
                 out.append(("at", n.at_keyword, tuple(_tok_nf(n.prelude)), None))
             elif n.lower_at_keyword in ("media", "supports"):
                 sub = tinycss2.parse_rule_list(n.content, skip_whitespace=False, skip_comments=False)
-                out.append(("at-rules", n.at_keyword, tuple(_tok_nf(n.prelude)), tuple(_rule_list_nf(sub))))
+                out.append(("at-rules", n.at_keyword, tuple(_tok_nf(n.prelude)), tuple(_rule_list_nf(sub, mask))))
             else:
                 out.append(("at", n.at_keyword, tuple(_tok_nf(n.prelude)), tuple(_tok_nf(n.content))))
         elif isinstance(n, A.ParseError):
@@ -326,11 +336,28 @@ def _rule_list_nf(nodes):
     return out
 
 
-def normal_form(css_text):
+def normal_form(css_text, mask=None):
     """Normal form of a stylesheet: CDO/CDC and whitespace dropped at rule level (parse_stylesheet
-    already drops CDO/CDC at top level), declarations as (name, value tokens, important)."""
+    already drops CDO/CDC at top level), declarations as (name, value tokens, important).
+    mask = {"rules": selectors whose `color` values are masked, "props": custom property names
+    whose definitions in :root/html are masked}."""
     nodes = tinycss2.parse_stylesheet(css_text, skip_whitespace=False, skip_comments=False)
-    return _rule_list_nf(nodes)
+    return _rule_list_nf(nodes, mask)
+
+
+def nf_diff(a, b, path=()):
+    """First difference between two normal forms: (path, a_item, b_item) or None."""
+    if isinstance(a, (list, tuple)) and isinstance(b, (list, tuple)):
+        for i in range(max(len(a), len(b))):
+            if i >= len(a):
+                return (path + (i,), None, b[i])
+            if i >= len(b):
+                return (path + (i,), a[i], None)
+            d = nf_diff(a[i], b[i], path + (i,))
+            if d:
+                return d
+        return None
+    return None if a == b else (path, a, b)
 
 
 def has_parse_error(css_text):
